@@ -72,27 +72,43 @@ type pendingW struct {
 	n int
 }
 
-var pendingWriters []pendingW
+// NOTE: simulator tables are fixed arrays manipulated with plain loops. copy/append must
+// not be used in //go:norace code on memory shared between tasks: runtime.slicecopy and
+// growslice carry their own race-detector hooks regardless of the caller's pragma.
+var (
+	pendingWriters [tableCap]pendingW
+	nPendingW      int
+)
+
+const tableCap = 128
 
 //go:norace
 func writerPending(p unsafe.Pointer, d int) {
-	for i := range pendingWriters {
+	for i := 0; i < nPendingW; i++ {
 		if pendingWriters[i].p == p {
 			pendingWriters[i].n += d
 			if pendingWriters[i].n <= 0 {
-				pendingWriters = append(pendingWriters[:i], pendingWriters[i+1:]...)
+				for j := i; j+1 < nPendingW; j++ {
+					pendingWriters[j] = pendingWriters[j+1]
+				}
+				nPendingW--
 			}
 			return
 		}
 	}
 	if d > 0 {
-		pendingWriters = append(pendingWriters, pendingW{p, d})
+		if nPendingW == tableCap {
+			simFault = "pending-writer table full"
+			return
+		}
+		pendingWriters[nPendingW] = pendingW{p, d}
+		nPendingW++
 	}
 }
 
 //go:norace
 func hasPendingWriter(p unsafe.Pointer) bool {
-	for i := range pendingWriters {
+	for i := 0; i < nPendingW; i++ {
 		if pendingWriters[i].p == p {
 			return true
 		}
@@ -108,11 +124,14 @@ type onceState struct {
 	owner int32
 }
 
-var onceBusy []onceState
+var (
+	onceBusy  [tableCap]onceState
+	nOnceBusy int
+)
 
 //go:norace
 func onceIsBusy(p unsafe.Pointer) bool {
-	for i := range onceBusy {
+	for i := 0; i < nOnceBusy; i++ {
 		if onceBusy[i].p == p {
 			return true
 		}
@@ -122,21 +141,29 @@ func onceIsBusy(p unsafe.Pointer) bool {
 
 //go:norace
 func onceEnter(p unsafe.Pointer) {
-	onceBusy = append(onceBusy, onceState{p, cur})
+	if nOnceBusy == tableCap {
+		simFault = "once table full"
+		return
+	}
+	onceBusy[nOnceBusy] = onceState{p, cur}
+	nOnceBusy++
 }
 
 //go:norace
 func onceLeave(p unsafe.Pointer) {
-	for i := range onceBusy {
+	for i := 0; i < nOnceBusy; i++ {
 		if onceBusy[i].p == p {
-			onceBusy = append(onceBusy[:i], onceBusy[i+1:]...)
+			for j := i; j+1 < nOnceBusy; j++ {
+				onceBusy[j] = onceBusy[j+1]
+			}
+			nOnceBusy--
 			return
 		}
 	}
 }
 
 //go:norace
-func onceReset() { onceBusy = onceBusy[:0]; pendingWriters = pendingWriters[:0] }
+func onceReset() { nOnceBusy, nPendingW, nWgs = 0, 0, 0 }
 
 // OnceDo replaces o.Do(f). The real Once blocks a second caller while the first is
 // still inside f; here the second caller yields as blocked instead.
